@@ -93,6 +93,7 @@ def rule_compiles(ctx: Ctx, rid="C07.SHAPE-COMPILES", strict=True, layouts=None,
                    nontrivial=False)
         return
     n = 0
+    unknown_skeleton = []
     for o, ir, err in irs(ctx):
         if layouts is not None and o.expose not in layouts:
             continue
@@ -114,11 +115,15 @@ def rule_compiles(ctx: Ctx, rid="C07.SHAPE-COMPILES", strict=True, layouts=None,
                         witness=" ".join(t.type for t in PL.prog_tokens(o.prog)),
                         text=f"{o.prog.label}|{o.syntax_error.split('(')[0]}", facts={"generated": o.text})
         elif err:
-            ctx.rep.bad(rid, con, f"the generated module does not have the evaluation skeleton: {err}", text=o.prog.label,
-                        facts={"generated": o.text})
+            # valid Python of another build than the one the template rules read: that is not a verdict on the property
+            unknown_skeleton.append((con, err))
         else:
             ctx.rep.ok(rid, con, "parses as a Python module with the expected skeleton")
     ctx.rep.floor("shape x layout instances", n, 180 if layouts is None else 90)
+    if unknown_skeleton:
+        from pyab_static.core import FloorError
+        raise FloorError(f"{len(unknown_skeleton)} of {n} generated modules are valid Python but do not have the evaluation skeleton the "
+                         f"analyser models ({unknown_skeleton[0][1][:160]}): the template rules cannot be decided")
 
 
 def unbound_names(ir, dsl=()):
